@@ -1,5 +1,5 @@
 #!/usr/bin/env python3
-"""boundary_mutants.py [file:line ...] — relational-operator boundary mutation of every comparison against one of the
+"""boundary_mutants.py [file:line ...] (MUT_LITERALS=1 for numeric literals instead of named constants) — relational-operator boundary mutation of every comparison against one of the
 format's named range constants (maxDigits, exponentBias, max/minBiasedExponent, max/minUnbiasedExponent):
 `<` <-> `<=`, `>` <-> `>=`, one site at a time. For each mutant that compiles, the quick checks of the properties
 that exercise the file are run. Prints one line per site. Do not run other checks concurrently."""
@@ -11,6 +11,14 @@ FILES = {'arith.go': ['C01', 'C02', 'C03', 'C15', 'C18'], 'compare.go': ['C04', 
          'exp.go': ['C16', 'C17', 'C15'], 'rounding.go': ['C01', 'C02', 'C05', 'C08', 'C11'], 'scan.go': ['C05', 'C13']}
 CONST = r'-?(?:maxDigits|exponentBias|maxBiasedExponent|minBiasedExponent|maxUnbiasedExponent|minUnbiasedExponent)\b'
 RX = re.compile(r'(<=|>=|<|>)( *)(' + CONST + ')')
+if os.environ.get('MUT_LITERALS'):
+    # second experiment: comparisons against numeric literals (shifts and generic type parameters excluded)
+    RX = re.compile(r'(?<![<>])(<=|>=|<|>)( +)(-?(?:0x[0-9a-fA-F_]+|[0-9][0-9_]*)\b)')
+    FILES = {'decomposed.go': ['C16', 'C17', 'C18'], 'exp.go': ['C16', 'C17'], 'int.go': ['C02', 'C03', 'C16'], 'arith.go': ['C01', 'C02', 'C03', 'C18'],
+             'format.go': ['C06', 'C07'], 'rounding.go': ['C01', 'C02', 'C05', 'C08'], 'convert.go': ['C09', 'C10'], 'compare.go': ['C04'], 'compose.go': ['C14'],
+             'decimal.go': ['C11', 'C19'], 'scan.go': ['C05'], 'json.go': ['C13'], 'payload.go': ['C15']}
+if os.environ.get('MUT_FILES'):
+    FILES = {f: p for f, p in FILES.items() if f in os.environ['MUT_FILES'].split(',')}
 FLIP = {'<': '<=', '<=': '<', '>': '>=', '>=': '>'}
 env = dict(os.environ, VERIF_REGDIR='/tmp/mutreg', GOFLAGS='-mod=mod', GOPROXY='off', GOSUMDB='off', GOTOOLCHAIN='local')
 only = sys.argv[1:]
@@ -43,4 +51,4 @@ for f, props in FILES.items():
             finally:
                 subprocess.run(['git', 'checkout', '--', '.'], cwd=REPO)
 subprocess.run(['rm', '-rf', '/tmp/mutreg'])
-json.dump(rows, open('/tmp/boundary_mutants.json', 'w'))
+json.dump(rows, open(os.environ.get('MUT_OUT', '/tmp/boundary_mutants.json'), 'w'))
